@@ -4,7 +4,7 @@
 (*   shape    the jar: 1-3 generated classes (A; A + B extends A with /    *)
 (*            without own members; C extends a class outside the jar whose *)
 (*            super type declares the member; A + inner class A$I; a chain *)
-(*            of three), always a module-info host for the module rows     *)
+(*            of three); module rows are placed in a module-info class     *)
 (*   cm       class renames: none, same package, package move, inner class *)
 (*            following / not following its outer class, inner class       *)
 (*            flattened, a rename onto a name present in the jar           *)
@@ -161,7 +161,7 @@ WithItem(c, it) == [c EXCEPT !.items = <<it>>]
 ClassesOf(sh, pr) ==
     LET Cs == Shapes[sh].cs IN
     [i \in 1..Len(Cs) |-> IF pr.host = "last" /\ i = Len(Cs) THEN WithItem(Cs[i], pr.it) ELSE Cs[i]]
-    \o <<IF pr.host = "module" THEN WithItem(ModInfo, pr.it) ELSE ModInfo>>
+    \o (IF pr.host = "module" THEN <<WithItem(ModInfo, pr.it)>> ELSE <<>>)
 ClassEntry(n, c) == [n |-> n, k |-> "class", c |-> c]
 JarSeqOf(sh, pr, ex) ==
     LET Cs == Shapes[sh].cs
@@ -281,5 +281,8 @@ Exp == IF Collides(X, J) THEN [anyof |-> <<[ok |-> TRUE], [ok |-> FALSE]>>]
 Label == IF extras # "none" THEN "extras/" \o extras ELSE "probe/" \o Pr.kind
 Emit == IsCase => PrintT(ToJson([op |-> "remap", cls |-> Label, collides |-> Collides(X, J), M |-> MapSet, lib |-> Shapes[shape].lib,
                                  tag |-> [shape |-> shape, cm |-> cm, mm |-> mm, ident |-> ident, probe |-> probe],
+                                 pairs |-> [i \in DOMAIN JarSeq |-> LET n == JarSeq[i].n IN
+                                              <<n, IF Collides(X, J) THEN "" ELSE OutName(X, n, J[n]),
+                                                IF J[n].k = "class" THEN EntryShape(n, J[n].this) ELSE "">>],
                                  jar |-> JarSeq, exp |-> Exp]))
 =============================================================================
